@@ -58,8 +58,18 @@ Histories(cfg) ==
   IN UNION {{p \o <<first(A)>> \o rest(A) \o OpTail : p \in SetToSeqs(A)}
             : A \in {B \in SUBSET S : Cardinality(B) <= MaxPre}}
 
+\* other transaction environments (version 1, time-based / final sequence, lock time not reached):
+\* the history that prepares everything is replayed under each of them
+EnvAlts == {[TxEnvJ EXCEPT !.ver = 1],
+            [TxEnvJ EXCEPT !.seq = [final |-> FALSE, dis |-> FALSE, time |-> TRUE, v |-> 15]],
+            [TxEnvJ EXCEPT !.seq = [final |-> TRUE, dis |-> TRUE, time |-> TRUE, v |-> 65535]],
+            [TxEnvJ EXCEPT !.seq = [final |-> FALSE, dis |-> TRUE, time |-> FALSE, v |-> 15]],
+            [TxEnvJ EXCEPT !.lock = 50]}
+FullHistory(cfg) == <<POp("finalize", 0, 0, NoH, FALSE)>> \o SetToSeq(PrepSteps(cfg)) \o OpTail
+
 Cases ==
   LET all == UNION {{[inputs |-> [i \in 1..Len(cfg) |-> Catalogue[cfg[i]]], env |-> TxEnvJ, ops |-> h] : h \in Histories(cfg)} : cfg \in Configs}
+             \cup {[inputs |-> [i \in 1..Len(cfg) |-> Catalogue[cfg[i]]], env |-> e, ops |-> FullHistory(cfg)] : cfg \in Configs, e \in EnvAlts}
       sq == SetToSeq(all)
   IN [q \in 1..Len(sq) |-> sq[q] @@ [id |-> q]]
 
